@@ -29,9 +29,10 @@ Record ren := {
   rt : list (nat * nat);     (* framer ids *)
   rv : list (nat * nat);     (* store variable indices *)
   roff : nat;                (* recorder tag offset *)
+  rm : list (nat * nat);     (* mark ids: every instance owns its marks (Mark key = framer NAME < marker|frame) *)
 }.
 
-Definition id_ren : ren := {| rt := []; rv := []; roff := 0 |}.
+Definition id_ren : ren := {| rt := []; rv := []; roff := 0; rm := [] |}.
 
 Section Expand.
 Variable O : TimeOps.
@@ -48,8 +49,8 @@ Fixpoint ren_need (r : ren) (n : need O) : need O :=
   | NDone t => NDone (lk (rt r) t)
   | NDoneAux k f => NDoneAux (ren_sel r k) f
   | NStatus t s => NStatus (lk (rt r) t) s
-  | NUpdated v mk => NUpdated (lk (rv r) v) mk
-  | NChanged v mk => NChanged (lk (rv r) v) mk
+  | NUpdated v mk => NUpdated (lk (rv r) v) (lk (rm r) mk)
+  | NChanged v mk => NChanged (lk (rv r) v) (lk (rm r) mk)
   | NNot n' => NNot (ren_need r n')
   end.
 
@@ -63,8 +64,8 @@ Definition ren_act (r : ren) (a : act O) : act O :=
   | AFiat c t => AFiat c (lk (rt r) t)
   | ADone ts => ADone (map (lk (rt r)) ts)
   | ADeactivize x => ADeactivize (lk (rt r) x)
-  | AMarkU mk tr => AMarkU mk tr
-  | AMarkC v mk => AMarkC (lk (rv r) v) mk
+  | AMarkU mk tr => AMarkU (lk (rm r) mk) tr
+  | AMarkC v mk => AMarkC (lk (rv r) v) (lk (rm r) mk)
   end.
 
 Definition ren_pact (r : ren) (p : pact O) : pact O :=
